@@ -36,6 +36,7 @@ structure WT where
   oldRoot : Bytes × Nat := ([], 0)
   deleted : List Bytes := []        -- `map[[32]byte]bool`
   tempDeleted : List Bytes := []
+  pending : List Bytes := []        -- `pendingDeleted`: superseded by changes that are not committed yet (fix a54b110)
   created : List Bytes := []
 
 instance : Inhabited WT := ⟨{}⟩
@@ -202,20 +203,20 @@ def update (t : WT) (key : List Nib) (value : Bytes) (weight : Nat) : WT × Res 
   else if value ≠ [] then
     let r := insert t.hasDb t.store (fuelFor key) (normRoot t.root) key (.value [] value weight true)
     match r.err with
-    | some e => ({ t with root := normRoot r.node, tempDeleted := t.tempDeleted ++ r.td }, .err e)
-    | none => ({ t with root := r.node, tempDeleted := t.tempDeleted ++ r.td }, .ok ())
+    | some e => ({ t with root := normRoot r.node, pending := t.pending ++ r.td }, .err e)
+    | none => ({ t with root := r.node, pending := t.pending ++ r.td }, .ok ())
   else
     let r := delete H t.hasDb t.store (fuelFor key) (normRoot t.root) key
     match r.err with
-    | some e => ({ t with root := normRoot r.node, tempDeleted := t.tempDeleted ++ r.td }, .err e)
-    | none => ({ t with root := normRoot r.node, tempDeleted := t.tempDeleted ++ r.td }, .ok ())
+    | some e => ({ t with root := normRoot r.node, pending := t.pending ++ r.td }, .err e)
+    | none => ({ t with root := normRoot r.node, pending := t.pending ++ r.td }, .ok ())
 
 /-- `Delete(key)` (no key-length check in Go) -/
 def deleteKey (t : WT) (key : List Nib) : WT × Res Nat :=
   let r := delete H t.hasDb t.store (fuelFor key) t.root key
   match r.err with
-  | some e => ({ t with root := r.node, tempDeleted := t.tempDeleted ++ r.td }, .err e)
-  | none => ({ t with root := normRoot r.node, tempDeleted := t.tempDeleted ++ r.td }, .ok r.change)
+  | some e => ({ t with root := r.node, pending := t.pending ++ r.td }, .err e)
+  | none => ({ t with root := normRoot r.node, pending := t.pending ++ r.td }, .ok r.change)
 
 /-! ### Root, Weight, CopyRoot -/
 
@@ -300,6 +301,8 @@ def eraseAll (l : List Bytes) (xs : List Bytes) : List Bytes := l.filter (fun k 
 
 /-- `Commit(collapseLevel)`: the trie afterwards and the batch (to be applied by the caller) -/
 def commit (t : WT) (collapse : Int) : WT × List StoreOp :=
+  -- what the uncommitted changes superseded is queued for GC only now (fix a54b110)
+  let t : WT := { t with tempDeleted := t.tempDeleted ++ t.pending, pending := [] }
   if !t.root.dirty then (t, [])
   else
     let r : CRes := match t.root with
@@ -332,7 +335,7 @@ def saveRoot (t : WT) : WT :=
 def rollback (t : WT) : WT × List StoreOp :=
   let ops := t.created.map StoreOp.del
   ({ t with root := if t.oldRoot.2 > 0 then .hashRef t.oldRoot.1 t.oldRoot.2 else .empty,
-            store := t.store.apply ops, created := [], tempDeleted := [], deleted := [] }, ops)
+            store := t.store.apply ops, created := [], tempDeleted := [], pending := [], deleted := [] }, ops)
 
 /-- `RollbackTrie(node)` -/
 def rollbackTrie (t : WT) (node : WN) : WT × List StoreOp :=
@@ -341,7 +344,7 @@ def rollbackTrie (t : WT) (node : WN) : WT × List StoreOp :=
   else
     let ops := t.created.map StoreOp.del
     ({ t with root := if toEmpty then .empty else node, store := t.store.apply ops, created := [], tempDeleted := [],
-              deleted := [] }, ops)
+              pending := [], deleted := [] }, ops)
 
 end Ops
 end Verif.Wmpt
